@@ -40,12 +40,12 @@ EXPLANATION = (
     'resid being the at most three sub-diagonal entries that passed the convergence test although they were not 0, each '
     'bounded by the tolerance of the test (1e-14*tst1) and placed between the two vectors it coupled when it was dropped '
     '(diagM_similarity); the quadratic forms of m and of Q diag(d) Q^T differ by at most 3*tol*|x|^2 for every x '
-    '(diagM_residual_bound); if the dropped entries were exactly 0 the decomposition is exact (diagM_similarity_exact), which '
+    '(diagM_residual_bound); if the dropped entries - which are what is left in e[0], e[1] at return, plus possibly the e[1] of the first rotation (diagM_dropped_entries) - were exactly 0 the decomposition is exact (diagM_similarity_exact, diagM_similarity_efinal), which '
     'is proved outright for every input whose tridiagonal form has e[1] = 0 and an e[0] that does not pass the test '
     '(diagM_exact_block2: the one-rotation sweep annihilates e[0] exactly); eigenvalues all above 3*tol imply that the input '
     'is positive definite, with no exactness hypothesis (diagM_spd_of_margin); log/exp/sqrt identities restated with the '
     'hypothesis "the inner runs dropped nothing non-zero" instead of an abstract IsEigSys (exp_log_zeroResidual, '
-    'log_exp_zeroResidual, sqrt_zeroResidual, zeroResidual_isEigSys); descending_eig keeps form_m for every system '
+    'log_exp_zeroResidual, sqrt_zeroResidual, zeroResidual_isEigSys, innerExact_of_zeroResidual for intersect/bound); descending_eig keeps form_m for every system '
     '(descendingEig_formM); form_m of an orthonormal system with positive values is positive definite (formM_spd). '
     'Only oracled: convergence within 30 sweeps, and the size of tst1 relative to the norm of the input (the residual bound is '
     'stated in terms of the test\'s own tst1). Known findings reported by the strict/underflow streams: the absolute 1e-14 convergence '
